@@ -192,6 +192,8 @@ fn check<P: Property>(tier: Tier, o: &Opts) -> i32 {
             .set("sim_steps", agg.steps)
             .set("sim_time_note", "simulated time = number of simulator events (stub calls, polls, caller decisions); the code under test has no clock")
             .set("runs_per_hour", ((agg.evaluations as f64) / wall_run.max(1e-6) * 3600.0) as u64)
+            .set("seeds_per_hour", ((agg.random_runs as f64) / wall_run.max(1e-6) * 3600.0) as u64)
+            .set("seeds_note", "every random run has its own seed = splitmix64(VERIF_SEED ^ tag(property) ^ index*phi); sweep/enumerated runs are seed-independent")
             .set("faults_injected", faults)
             .set("probes", probes)
             .set("distinct_abstract_edges", agg.edges.len())
